@@ -93,6 +93,9 @@ type bound struct {
 	m      *streamModel
 	cursor uint16
 	ts     uint32
+	// a run of old numbers being sent again: how many more, and the last one sent
+	resend     int
+	resendNext uint16
 }
 
 func TestSenderReports(t *testing.T) {
@@ -203,7 +206,7 @@ func TestSenderReports(t *testing.T) {
 				}
 				if b.m.haveRef {
 					el := now.Sub(b.m.refAt).Seconds() * b.m.rate
-					wantRTP := b.m.refTS + uint32(uint64(math.Floor(el))) //nolint:gosec
+					wantRTP := b.m.refTS + uint32(uint64(math.Floor(el)))  //nolint:gosec
 					if d := int32(sr.RTPTime - wantRTP); d > 1 || d < -1 { //nolint:gosec
 						t.Fatalf("%s: RTP time %d, want %d = reference timestamp %d (sent at +%v) + floor(%.6f s * %.0f) mod 2^32", where,
 							sr.RTPTime, wantRTP, b.m.refTS, b.m.refAt.Sub(epoch), now.Sub(b.m.refAt).Seconds(), b.m.rate)
@@ -246,6 +249,14 @@ func TestSenderReports(t *testing.T) {
 				seq = b.cursor
 			default:
 				seq = b.cursor - uint16(rapid.IntRange(1, 30000).Draw(t, "farback")) //nolint:gosec
+			}
+			if b.resend > 0 { // the next number of a run of old packets sent again (a lost range re-sent in order)
+				b.resend--
+				b.resendNext++
+				seq = b.resendNext
+			} else if seq != b.cursor && rapid.IntRange(0, 3).Draw(t, "resendRun") == 0 {
+				b.resend, b.resendNext = rapid.IntRange(1, 3).Draw(t, "resendMore"), seq
+				classes["old-packets-resent-in-a-run"] = true
 			}
 			step := dt.Draw(t, "dt")
 			if step > time.Hour && now.Sub(epoch) > 6*time.Hour {
